@@ -12,6 +12,7 @@ import (
 	"time"
 
 	"verif/sim/props"
+	"verif/sim/sched"
 	"verif/sim/tape"
 )
 
@@ -167,7 +168,7 @@ func ShrinkAndWrite(prop, tier string, seed uint64, run int, v props.Violation, 
 		fv = &v
 	}
 	rf := &ReplayFile{
-		Property: prop, Clause: clause, What: fv.What, Tier: tier, Seed: seed, Run: run, Race: IsRaceBuild,
+		Property: prop, Clause: clause, What: fv.What, Tier: tier, Seed: seed, Run: run, Race: IsRaceBuild, Instr: sched.Instrumented,
 		Mode: "tape", Tape: fin.Values, Labels: labelsOf(fin.Draws), Detail: fv.Detail, Narrative: fin.Ctx.Notes, Shrink: st,
 	}
 	return WriteReplay(rf)
